@@ -246,6 +246,7 @@ func witnessCases(prop string) []witnessCase {
 		r("res", with(baseR(), "ah", vA(vS("a"), vS("b"))), "response-header-array-joined")
 		r("res", with(baseR(), "arr", vA()), "empty-collection-arrives-nil")
 		r("resd", vO("name", vS("nm")), "default-in-response-header-sent-as-zero")
+		r("res", vO("name", vS("nm"), "kind", vS("acc")), "tagged-response-unset-header-panics")
 	}
 	return cs
 }
